@@ -43,9 +43,9 @@ PROPS = {
                       "unit quaternion. The same definitions run as a Float twin and agree BIT-FOR-BIT with kira rendered through the public "
                       "manager API (listener/emitter tweens incl. glam's slerp, listener add/drop, nested spatial/non-spatial tracks, "
                       "distance-mapped volumes, Info::listener_distance seen by an effect)",
-        "level_note": "favours-the-near-ear is proved for emitters at least 0.2 (two ear distances) from the listener "
-                      "(C15_favours_near_ear_partial); it is FALSE inside the head (< 0.1; witness theorem + replay = known finding) and "
-                      "only tested, not proved, in the shell [0.1, 0.2). Theorems are over ideal real arithmetic (rounding only in the twin); "
+        "level_note": "favours-the-near-ear is proved for every emitter outside the head (distance >= EAR_DISTANCE = 0.1, "
+                      "C15_favours_near_ear_outside_head); without that hypothesis it is FALSE (inside the head the far ear can be "
+                      "louder: witness theorem + replay = known finding). Theorems are over ideal real arithmetic (rounding only in the twin); "
                       "glam's slerp approximations (acos/sin polynomials) are mirrored op-for-op in the twin but no theorem is stated about "
                       "them (the theorems quantify over every orientation); tie to the code = differential correspondence, no tolerance needed",
         "assumptions": [
